@@ -7,6 +7,8 @@ import rules_l as RL
 import rules_q as RQ
 import rules_w as RW
 import rules_c17 as RC17
+import rules_sched as RS
+import rules_subject as RJ
 
 COMBINATORS = ("merge", "flat_map", "concat", "zip", "combine_latest", "amb", "take_until",
                "skip_until", "sample", "switch_on_next", "sequence_equal")
@@ -35,6 +37,15 @@ def scope_c02(t):
     return not (scope_c03(t) or scope_c04(t) or scope_c09(t))
 
 
+def _only(r, prefixes, contains=None):
+    """Restrict a multi-clause rule result to the clauses (first key element) a property owns."""
+    r.instances = [i for i in r.instances if i[0] and i[0][0] in prefixes
+                   and (contains is None or any(any(x in str(k) for x in contains) for k in i[0]))]
+    r.violations = [v for v in r.violations if v.key and v.key[0] in prefixes
+                    and (contains is None or any(any(x in str(k) for x in contains) for k in v.key))]
+    return r
+
+
 class Ctx:
     def __init__(self, P, E, H):
         self.P, self.E, self.H = P, E, H
@@ -59,6 +70,8 @@ def rules_for(pid):
         "C03": [
             ("H-register-first", lambda c: RH.h_register_first(c.P, c.E, c.H), 20),
             ("H-complete", lambda c: RH.h_complete(c.P, c.E, c.H, scope_c03), 14),
+            ("J6-ready-set-go", lambda c: _only(RJ.j_rules(c.P, c.E), ("J6",)), 4),
+            ("D-atomic-latest", lambda c: _only(RJ.d_rules(c.P, c.E, c.H), ("D1", "D2"), ("sample", "debounce")), 2),
         ],
         "C04": [
             ("H-error", lambda c: RH.h_error(c.P, c.E, c.H), 55),
@@ -98,6 +111,38 @@ def rules_for(pid):
         ],
         "C18": [
             ("W", lambda c: RW.w_rules(c.P, c.E), 9),
+        ],
+        "C09": [
+            ("HANDOFF", lambda c: RS.handoff_rules(c.P, c.E, c.H), 3),
+            ("ABORT-WHO", lambda c: RS.abort_who_may_call(c.P, c.E), 5),
+            ("SUBSCRIBE-ON", lambda c: RS.subscribe_on_rule(c.P, c.E), 2),
+            ("H-complete", lambda c: RH.h_complete(c.P, c.E, c.H, scope_c09), 2),
+            ("S-gate", lambda c: RO.s_gate(c.P, c.E), 4),
+        ],
+        "C10": [
+            ("J", lambda c: RJ.j_rules(c.P, c.E), 18),
+            ("L2", lambda c: RL.l2_leaf_locks(c.P, c.E), 15),
+        ],
+        "C11": [
+            ("D", lambda c: RJ.d_rules(c.P, c.E, c.H), 4),
+            ("S-remove-and-test", lambda c: RO.s_remove_and_test(c.P, c.E), 1),
+            ("F-atomic-take", lambda c: RO.f_atomic_take(c.P, c.E), 3),
+        ],
+        "C12": [
+            ("J", lambda c: _only(RJ.j_rules(c.P, c.E), ("J2", "J3", "J6")), 12),
+        ],
+        "C13": [
+            ("P", lambda c: RJ.p_rules(c.P, c.E), 14),
+        ],
+        "C15": [
+            ("T1", lambda c: RS.t1_abort_wired(c.P, c.E), 5),
+            ("Q7-Q8", lambda c: _only(RQ.q_rules(c.P, c.E), ("Q7", "Q8")), 4),
+            ("S-finalize-shape", lambda c: RO.s_finalize_shape(c.P, c.E), 4),
+            ("L4", lambda c: RL.l4_producer_polling(c.P, c.E), 6),
+        ],
+        "C19": [
+            ("A19a", lambda c: RJ.a19a(c.P, c.E), 2),
+            ("F-atomic-take", lambda c: RO.f_atomic_take(c.P, c.E), 3),
         ],
         "C14": [
             ("K-fresh-state", lambda c: RK.k_fresh_state(c.P, c.E), 60),
@@ -157,6 +202,33 @@ EXPLANATION = {
            "spans the `done` test and the waker store; W2 done=true dominates the waker read and wake(); W3 err before "
            "done; W4 Ready only on the done edge, done never reset, buffer pushed only by next; W5 lock order.  "
            "(read guard of waker across wake(): accepted under A-waker).",
+    "C09": "observe_on: each handler posts exactly one task on every path and sinks nothing itself; the task calls the "
+           "matching sink exactly once with the handler's own payload/serial (provenance through the closure captures); "
+           "scheduler.abort() is reachable only from on_finalize closures or posted tasks; subscribe_on subscribes only "
+           "inside the posted task, which is posted on every path.  Order/no-loss/one-thread then rest on C08's queue "
+           "premises (FIFO, single worker); post-unsubscribe silence on S-gate.",
+    "C10": "Map discipline of Subject: J1 fresh serial under one write guard, inserted key == key removed by teardown; J2 "
+           "who-may-write the observer map (insert on subscribe / remove in teardown / clear in terminals); J3 deliveries "
+           "over the fetch_observers() snapshot with no map guard live; J4 terminals snapshot, clear, then deliver; J5 "
+           "teardown installed before insertion; J6 history recorded before broadcast, ready_set_go subscribes before "
+           "running its action.  Full reference state machines are NOT decided.",
+    "C11": "Premises of the linearisation argument: D1 take/amb/zip/new_observer decide under exactly one write guard of "
+           "the deciding cell, D2 no emission under it; S-remove-and-test (last-one-out); F-atomic-take (per-kind "
+           "terminal take).  Multiset conservation under all schedules is NOT decided.",
+    "C12": "J2 (single write-locked insert/remove/clear), J3 (each next delivers to a consistent snapshot, no guard "
+           "held), J6 (append-before-broadcast, subscribe-before-replay).  Exactly-once / gap-freedom in the two-step "
+           "windows is NOT decided.",
+    "C13": "P1 publish subscribes only in connect; P2 connect of ref_count/replay is test(is_some)-and-set under one write "
+           "guard of `subscription` with source.subscribe behind the test; P3 count-down unsubscribes the stored "
+           "subscription; P4 the cell is written only by connect; P5 callbacks forward next->next, error->error, "
+           "complete->complete.  History semantics NOT decided.",
+    "C15": "T1 every scheduler created inside a subscription has abort() wired to its end (set_on_finalize before the "
+           "first post on every path, or every posted task aborts on every path); Q7 threads are spawned only by "
+           "NewThreadScheduler::new, once; Q8 the worker leaves its loop iff aborted (sticky); S-finalize-shape: "
+           "on_finalize runs at every end; L4 task loops poll.  The `within one period` bound is NOT decided.",
+    "C19": "A19a only: each terminal kind is invoked solely through the atomic take (F-atomic-take: test+clear under one "
+           "write guard), so at most one error and at most one complete callback under any interleaving.  Cross-kind "
+           "exclusion between the delivery gate and the terminal transition (A19b) is NOT armed: see DESIGN.md.",
     "C14": "The closure given to Observable::create is Fn+Send+Sync, so state that survives one subscription "
            "must sit behind interior mutability in a captured value; every capture of every SOURCE closure of "
            "a cold constructor is classified by the interior-mutable leaves of its type (K-fresh-state); "
